@@ -104,6 +104,11 @@ def run(ctx):
     nchk = 4000 if thorough else 500
     for i in range(nchk):
         progs.append(sp.rate_check_program(rnd, 'chk%d' % i, multi_only=(i % 2 == 0)))
+    # array-valued controls: few names, many slots, totals across the 255 / 256 boundary (the reader's own limit is on NAMES)
+    totals = [2, 16, 17, 64, 254, 255, 256, 257, 300, 512] + [rnd.randint(200, 400) for _ in range(30 if thorough else 6)] \
+        + [rnd.randint(2, 40) for _ in range(60 if thorough else 12)]
+    for i, tot in enumerate(totals):
+        progs.append(sp.array_control_program(rnd, 'actl%d' % i, tot))
     names = name_programs()
     progs += names
     sizes = [300, 450, 600, 800] * 4 if thorough else [120, 200, 300]
